@@ -89,7 +89,14 @@ func (e *env) judge() *runReport {
 	// a subscriber that was told about a connection error: give the upstream the chance to register
 	// the closure of that connection, so that the closed_by fact is the final one
 	for _, s := range subs {
-		if _, _, sc := e.up.sentFor(s.key); sc != nil && s.hasConnErr() {
+		if !s.hasConnErr() {
+			continue
+		}
+		if s.isReturned() && s.subscribeErr() == nil {
+			// its subscribe message was written: the upstream may still be working through its backlog
+			e.note.until(2*time.Second, func() bool { return e.up.sub(s.key) != nil })
+		}
+		if _, _, sc := e.up.sentFor(s.key); sc != nil {
 			e.note.until(3*time.Second, func() bool { return e.up.connInfoOf(sc).State == "closed" })
 		}
 	}
@@ -214,8 +221,11 @@ func (e *env) judge() *runReport {
 				fam = "local-close" // the client itself had closed the connection
 			case "context-canceled", "deadline-exceeded":
 				fam = "context"
+			case "init-failed", "dial-failed", "ack-timeout", "failed-upgrade":
+				fam = "dial" // produced by the dial / protocol init path
 			}
-			return map[string]string{"effect": effect, "err": errc, "err_family": fam, "conn_closed_by": closedBy, "own_ctx_live": fmt.Sprint(o.CtxLive || !o.Returned)}
+			return map[string]string{"effect": effect, "err": errc, "err_family": fam, "conn_closed_by": closedBy, "own_ctx_live": fmt.Sprint(o.CtxLive || !o.Returned),
+				"victim_got_data": fmt.Sprint(nData > 0)}
 		}
 		if o.Faulted {
 			// ---- C: the upstream dropped / went silent on this subscriber's connection
@@ -350,7 +360,12 @@ func (e *env) finish(rep *runReport) {
 			return st.WSConns == 0 && st.SSEConns == 0 && e.up.openCount() == 0
 		})
 		if !ok {
-			e.fail("watchdog", "quiescence: client Stats() and upstream open connections back to 0")
+			if st := e.cl.Stats(); e.up.openCount() == 0 && (st.WSConns != 0 || st.SSEConns != 0) {
+				// no connection is left at the upstream, only the client's registry still counts one
+				e.fail("stale-stats", "every upstream connection is closed but client Stats() does not return to 0")
+			} else {
+				e.fail("watchdog", "quiescence: client Stats() and upstream open connections back to 0")
+			}
 		}
 	}
 	if ok {
@@ -448,6 +463,7 @@ func emit(res *fw.Result, kind string, control, exp *runReport, param any) {
 		return m
 	}
 	limit := 0
+	seenClass := map[string]bool{}
 	report := func(r *runReport, d deviation, kindName string, facts map[string]string) {
 		if d.Isolation && d.SubIdx >= 0 && d.SubIdx < len(r.Outcomes) && r.Outcomes[d.SubIdx].tup != nil {
 			// from the upstream's final records: did the client tear down (TCP close without a close
@@ -465,8 +481,17 @@ func emit(res *fw.Result, kind string, control, exp *runReport, param any) {
 			}
 			facts = f
 		}
+		// one witness per (kind, facts) class and case: the other subscribers hit in the same way are counted
+		fk, _ := json.Marshal(facts)
+		cls := kindName + string(fk)
+		res.Count("deviating_subscribers", 1)
+		if seenClass[cls] {
+			res.Count("same_class_deviations_in_case", 1)
+			return
+		}
+		seenClass[cls] = true
 		limit++
-		if limit > 12 {
+		if limit > 8 {
 			res.Count("violations_suppressed_in_case", 1)
 			return
 		}
@@ -510,7 +535,7 @@ func emit(res *fw.Result, kind string, control, exp *runReport, param any) {
 			res.Count("isolation_comparisons", 1)
 			if x.signature() != c.signature() {
 				report(exp, deviation{SubIdx: i, Msg: fmt.Sprintf("%s: outcome differs from the run without cancels: %s vs %s", x.Key, truncate(x.signature(), 200), truncate(c.signature(), 200))},
-					"isolation.cancel", map[string]string{"effect": "outcome-differs", "err": x.SubErr, "err_family": x.SubErr, "conn_closed_by": "n/a", "own_ctx_live": fmt.Sprint(x.CtxLive)})
+					"isolation.cancel", map[string]string{"effect": "outcome-differs", "err": x.SubErr, "err_family": x.SubErr, "conn_closed_by": "n/a", "own_ctx_live": fmt.Sprint(x.CtxLive), "victim_got_data": "n/a"})
 			}
 		}
 	}
